@@ -77,9 +77,10 @@ def run(ctx):
             raise vlib.MachineryFault("fault-free run of case %d is not a valid frame (%s)" % (c["id"], w["frames"][0]["status"]))
         n = len(w["sinkCalls"])
         for k in pick_ks(n, rnd):
-            fc = dict(c, id=len(fcases) + 1, failAt=k, prefixOf=c["save"], base=c["id"])
-            fc.pop("save")
-            fcases.append(fc)
+            for once in (False, True):          # a sink that stays broken, and a transient fault at exactly call k
+                fc = dict(c, id=len(fcases) + 1, failAt=k, once=once, prefixOf=c["save"], base=c["id"])
+                fc.pop("save")
+                fcases.append(fc)
     fr, faults = fl.shard_run(b, "frame-write", fcases, d, "fault", extra=("--watchdog", "60s"))
     if faults:
         raise vlib.MachineryFault("frame-write (faults) failed: %s" % faults[0]["stderr"][-800:])
@@ -99,7 +100,7 @@ def run(ctx):
         c = by_f[rec["case"]]
         w = fr[c["id"]]
         errs = [x["err"] for x in w.get("calls", [])]
-        key = "C15:writer:%s:conc=%s:%s:errors=%s:prefix=%s" % ("legacy" if c["opts"]["legacy"] else "frame", "1" if c["opts"]["conc"] == 1 else ">1",
+        key = "C15:writer:%s:%s:conc=%s:%s:errors=%s:prefix=%s" % ("transient" if c.get("once") else "permanent", "legacy" if c["opts"]["legacy"] else "frame", "1" if c["opts"]["conc"] == 1 else ">1",
                                                              "-".join(x["op"] for x in c["calls"]),
                                                              "none" if all(e == "none" for e in errs[1:]) else "reported", w.get("sinkIsPrefix"))
         if any(v[0] == key for v in ctx.violations):
@@ -123,7 +124,8 @@ def run(ctx):
                        "rejected_event": json.loads(rej2[0]["line"])})
 
     # ---- Reader: fragmentation and source faults
-    frames = [c for c in base if c["opts"]["conc"] == 1 and c["calls"][0]["op"] == "write" and len(c["calls"]) == 2]
+    # (the concurrency with which a frame was written does not matter for reading it: take every option vector)
+    frames = [c for c in base if c["calls"][0]["op"] == "write" and len(c["calls"]) == 2]
     if q:
         frames = frames[::2]
     rcases = []
